@@ -54,7 +54,9 @@ CHECKS = {
              "unused fields are zero (C05's generic theorem pushed through the public encode); authored strings get ids "
              "resolving to them (C08) and new objects free slots of their own (C09); the record written for an authored action / "
              "condition of any of the 51 + 22 types is read back by the registered transcoder as the same type with the same flags and "
-             "arguments (identical for plain numbers, enumeration members and strings; for object references up to the codec's own decode-after-encode). The end-to-end claim is checked on the "
+             "arguments (identical for plain numbers, enumeration members, strings and AI scripts - also END TO END: the load of the saved map reads "
+             "strings through the very table the save encoded against; for object references the number written names, in the rebuilt "
+             "location / unit-property table, a slot holding the authored object). The end-to-end claim is checked on the "
              "implementation: authored scenarios over all 51+22 types, read back by an independent reader resolving every "
              "reference to content; the pipeline model reproduces the saved bytes exactly.",
         ref="DESIGN.md 5.11",
